@@ -1,10 +1,8 @@
 ---- MODULE MC_Conditions ----
-(* Model parameters for Conditions.tla (cfg files cannot hold tuples / records). *)
+(* Model parameters for Conditions.tla (cfg files cannot hold tuples / sequences). *)
 EXTENDS Conditions
 MCNestNo == {FALSE}
 MCNestBoth == {FALSE, TRUE}
-MCDRQuick == {<<1, 0>>, <<0, 1>>}
-MCDRAll == {<<0, 0>>, <<0, 1>>, <<1, 0>>, <<1, 1>>}
-MCEOne == {1}
-MCEAll == {0, 1}
+MCDR == << <<1, 0>>, <<0, 1>>, <<1, 1>>, <<0, 0>> >>
+MCE == <<1, 0>>
 ====
